@@ -73,6 +73,7 @@ mod kx_transient {
         fn process_events<F: FnMut((), &mut ())>(&mut self, _: Readiness, _: Token, mut cb: F) -> Result<PostAction, MockErr> {
             if !self.registered { self.flag(5); }
             unsafe { *self.calls += 1; }
+            if kani::any() { return Err(MockErr); }
             cb((), &mut ());
             // (Disable is excluded: known finding F6a)
             let a: u8 = kani::any();
